@@ -47,14 +47,14 @@ CLAIMS = {
         '6/C02',
     ),
     'C01': (
-        'Lean 4 theorems (Pta.C01.verdict_spec, verdict_spec_of_graph, report_spec, unknown_name_no_verdict) about an executable model of the rule pipeline (graph construction, the three graph searches, flag tables, eight violation buckets) and an independent declarative specification of the documented semantics: for every well-formed architecture and every strict rule the model verdict equals the specification. The model is tied to /repo on every run by a correspondence run (real assert_applies vs model vs specification; exhaustive over all import relations on small trees, seeded random beyond).',
-        'Trusted: Lean kernel; harness + driver; model-to-code agreement rests on the correspondence run (differential, exhaustive only on the small scopes named in the evidence); strict oracle only on pairwise unrelated subjects/objects and architectures where no package imports its own descendant.',
+        "Lean 4 theorems about an executable model of the rule pipeline (graph construction, the three graph searches, flag tables, eight violation buckets) and an independent declarative specification of the documented semantics: for every well-formed architecture the model verdict equals the specification for every STRICT rule (Pta.C01.verdict_spec, verdict_spec_of_graph; all 12 shapes, both filter kinds, batches of any size, the 'anything' aliases) and, related names allowed, for every plain should / should_not rule with named subjects and objects (verdict_spec_plain_named); report_spec / report_spec_plain_named for the report; unknown_name_no_verdict. End to end: Pta.E2E.scan_rule_verdict - for every directory tree that is well-formed where the scan looks, the verdict of a strict rule on the scanned architecture equals the documented semantics on the modules of the tree and the imports its statements account for. Tie: correspondence run (real assert_applies vs model vs specification; exhaustive over all import relations on small trees, seeded random beyond; re-used rule objects; partial names).",
+        "Strict oracle only on pairwise unrelated subjects/objects (plus the plain named rules) and on architectures where no package imports its own descendant; for 'something else' questions with related identifiers the documentation is silent (plain_subOf_counterexample shows where model and a literal reading differ); there the implementation is compared with the model only. Trusted: Lean kernel; harness + driver; model-to-code agreement rests on the correspondence run.",
         TECH,
         '6/C01',
     ),
     'C03': (
-        "Same model and specification as C01. Proved for every graph and rule: each reported import is an import edge with an end in a subject's sub tree, each 'does not import' line names a subject and objects of the rule (Pta.C03.*); on the strict domain the reported atoms equal the specification's violating set (Pta.C01.report_spec). The implementation's message is parsed into items and compared with model and specification on every run.",
-        'As C01; message wording beyond the four line shapes the property fixes is not compared.',
+        "Same model and specification as C01. Proved for every graph and rule: each reported import is an import edge with an end in a subject's sub tree, each 'does not import' line names a subject and objects of the rule (Pta.C03.reported_imports_are_imports, reported_imports_touch_subject, missing_lines_name_subjects); on the oracle domain the reported atoms equal the specification's violating set (Pta.C01.report_spec, report_spec_plain_named). The message TEXT is modelled too (PtaModel/Message.lean, a transcription of message_generator.py): line_of_item (the lines are exactly the renderings of the report items, sorted and de-duplicated as the generator does), parse_render (the four line shapes parse back), text_lines_are_imports / text_lines_shape (the item theorems restated for literal lines), layer_line_of_item for layer rules. Tie: the literal lines of str(AssertionError) are compared with the model's lines (module and layer rules), and parsed items with model and specification on every stream of C01.",
+        'As C01. Names containing a double quote or a newline are outside the literal-line theorems (witness example). Trusted: Lean kernel, harness/driver.',
         TECH,
         '6/C03',
     ),
@@ -101,8 +101,8 @@ CLAIMS = {
         '6/C15',
     ),
     'C16': (
-        'Lean 4 theorems over ALL builder call sequences: the LayeredArchitecture builder refines the specification automaton (larch_refines: accept/reject at the offending call, accepted definitions list what was supplied in order), the reachable-state invariant (unique layer names, at most one pending layer, no module in two layers: larch_invariant), LayerRule guards (layer_rule_guards). Tie: exhaustive sequences up to length 6 (string and list forms, shared characters) on the real builders vs model vs automaton.',
-        "Don't-cares of the automaton (regex string equal to a module name, containing_modules([])) are compared with the model only. Trusted: Lean kernel, harness/driver.",
+        'Lean 4 theorems over ALL builder call sequences: the LayeredArchitecture builder refines the specification automaton (larch_refines: accept/reject at the offending call, accepted definitions list what was supplied in order), the reachable-state invariant (unique layer names, at most one pending layer, no module in two layers: larch_invariant), empty_module_list_keeps_layer_open / empty_module_list_is_noop / empty_module_list_without_layer (an empty module list supplies no modules: the layer stays open), LayerRule guards (layer_rule_guards). Tie: exhaustive sequences up to length 6 (string and list forms, empty lists, shared characters) on the real builders vs model vs automaton.',
+        "One don't-care of the automaton is left (a regex string textually equal to a module name given elsewhere), compared with the model only. Trusted: Lean kernel, harness/driver.",
         TECH,
         '6/C16',
     ),
